@@ -197,6 +197,16 @@ pub struct RigWorker {
     pub boot_requests: usize,
 }
 
+impl Drop for RigWorker {
+    /// Error paths only (teardown takes the child itself): the dummy child must not outlive the rig.
+    fn drop(&mut self) {
+        if let Some(mut ch) = self.child.take() {
+            let _ = ch.kill();
+            let _ = ch.wait();
+        }
+    }
+}
+
 impl RigWorker {
     /// None = still running; Some(Ok) = run() returned; Some(Err) = the worker thread panicked / failed
     pub fn fate(&mut self) -> Option<Result<(), String>> {
